@@ -623,6 +623,12 @@ func (ex *Exec) specCall(sc *specCtx, e *ast.CallExpr) (Val, bool) {
 	case "is":
 		a := ex.specArgs(sc, e.Args)
 		return Val{ex.errIs(a[0].T, a[1].T), typBool}, true
+	case "cid":
+		a := ex.specArgs(sc, e.Args)
+		return Val{App("cid", SInt, a[0].T), typInt}, true
+	case "cat":
+		a := ex.specArgs(sc, e.Args)
+		return Val{App("catS", SSlice, a[0].T, a[1].T), types.NewSlice(types.Typ[types.Uint8])}, true
 	case "liberr":
 		a := ex.specArgs(sc, e.Args)
 		return Val{And(Lt(I(0), a[0].T), ex.notRepoSentinel(a[0].T)), typBool}, true
